@@ -576,6 +576,155 @@ fn c19_post(plan: &mut LPlan, seed: u64) {
     plan.actions.sort_by_key(|a| a.t);
 }
 
+fn c07_profile(index: u64) -> Profile {
+    let mut p = Profile::base("c07");
+    p.links_lo = 2;
+    p.links_hi = 3;
+    p.p_fault_free = 0.35;
+    p.net_loss = true;
+    p.blackholes = index % 3 == 0;
+    p.link_loss = index % 3 == 1;
+    p.receiver_restart = index % 2 == 0;
+    p.stalls = index % 4 == 3;
+    p.horizon_lo_ms = 9_000;
+    p.horizon_hi_ms = 22_000;
+    p.max_bursts = 2;
+    p
+}
+
+fn c07_post(plan: &mut LPlan, seed: u64) {
+    use crate::lsim::plan::{Action, TimedAction, hex};
+    plan.fine = true;
+    let mut r = crate::prng::Rng::new(seed ^ 0x0707);
+    if r.chance(0.6) {
+        // adversarial receiver: a bounded-depth sequence of handshake packets
+        // around the 1 s / 2 s / 4 s / 5 s deadlines (+-1 ms), on any link
+        if r.chance(0.7) {
+            plan.recv.mode = "silent".into();
+        }
+        plan.actions.retain(|a| !matches!(a.kind, Action::ReceiverRestart));
+        let depth = r.range(1, 14);
+        let mut id = vec![0u8; 256];
+        r.fill(&mut id);
+        let mut t = r.range(0, 2500);
+        for _ in 0..depth {
+            let link = r.below(plan.n_links as u64) as usize;
+            let bytes: Vec<u8> = match r.below(10) {
+                0 | 1 => vec![0x92, 0x11],
+                2 | 3 => {
+                    if r.chance(0.3) {
+                        r.fill(&mut id);
+                    }
+                    let mut b = vec![0x92, 0x01];
+                    b.extend_from_slice(&id);
+                    b
+                }
+                4 => {
+                    let mut b = vec![0x92, 0x01];
+                    let n = *r.pick(&[0usize, 1, 128, 255]);
+                    b.extend_from_slice(&id[..n]);
+                    b
+                }
+                5 | 6 => vec![0x92, 0x02],
+                7 => vec![0x92, 0x10],
+                8 => {
+                    let mut b = vec![0x92, 0x01];
+                    b.extend_from_slice(&id);
+                    b.extend_from_slice(&[1, 2, 3]);
+                    b
+                }
+                _ => vec![0x92, 0x12],
+            };
+            plan.actions.push(TimedAction { t, kind: Action::Inject { link, hex: hex(&bytes), delay: 0 } });
+            // next: just after now, or straddling a deadline
+            t += match r.below(6) {
+                0 => r.range(0, 3),
+                1 => 999 + r.range(0, 2),
+                2 => 1999 + r.range(0, 2),
+                3 => 3999 + r.range(0, 2),
+                4 => 4999 + r.range(0, 2),
+                _ => r.range(1, 1500),
+            };
+            if r.chance(0.25) {
+                // snap to a tick boundary +-1
+                t = (t / 1000) * 1000 + r.range(0, 2) + 999;
+            }
+            if t >= plan.horizon_ms {
+                break;
+            }
+        }
+        plan.actions.sort_by_key(|a| a.t);
+    }
+}
+
+fn c08_profile(index: u64) -> Profile {
+    let mut p = Profile::base("c08");
+    p.links_lo = 2;
+    p.p_fault_free = 0.05;
+    p.net_loss = index % 3 == 0;
+    p.blackholes = true;
+    p.link_loss = true;
+    p.send_faults = index % 2 == 0;
+    p.bind_faults = index % 3 == 1;
+    p.receiver_restart = index % 2 == 1;
+    p.stalls = index % 5 == 0;
+    p.config_changes = index % 7 == 0;
+    p.timeouts = true;
+    p.low_stall_threshold_bias = true;
+    p.max_bursts = 4;
+    match index % 10 {
+        0 => {
+            // long, mostly idle: lets the exponential back-off reach its cap
+            p.horizon_lo_ms = 300_000;
+            p.horizon_hi_ms = 620_000;
+            p.bind_faults = true;
+        }
+        1..=4 => {
+            p.horizon_lo_ms = 60_000;
+            p.horizon_hi_ms = 130_000;
+        }
+        _ => {
+            p.horizon_lo_ms = 15_000;
+            p.horizon_hi_ms = 60_000;
+        }
+    }
+    p
+}
+
+fn c08_post(plan: &mut LPlan, seed: u64) {
+    use crate::lsim::plan::{Action, TimedAction};
+    let mut r = crate::prng::Rng::new(seed ^ 0x0808);
+    // a thin continuous stream so that survivors always have something to carry
+    if r.chance(0.7) {
+        let pps = *r.pick(&[5u32, 20, 50]);
+        let dur = plan.horizon_ms.saturating_sub(3_500).min(90_000);
+        plan.actions.push(TimedAction {
+            t: 3_300,
+            kind: Action::Burst { n: ((dur * pps as u64) / 1000) as u32, pps, size_lo: 100, size_hi: 1316, stride: 1 },
+        });
+    }
+    // keep all faults in the first part of long runs so that the liveness clock can run out
+    let cut = plan.horizon_ms.saturating_sub(45_000).max(plan.horizon_ms / 2);
+    for a in plan.actions.iter_mut() {
+        let is_fault = !matches!(a.kind, Action::Burst { .. } | Action::Rexmit { .. } | Action::ClientControl { .. } | Action::Critical { .. });
+        if is_fault && a.t > cut {
+            a.t = r.range(3_000, cut.max(3_001));
+        }
+    }
+    // long bind-failure episodes in the long runs
+    if plan.horizon_ms >= 300_000 {
+        let link = r.below(plan.n_links as u64) as usize;
+        plan.actions.push(TimedAction { t: r.range(4_000, 20_000), kind: Action::LinkLoss { link, on: true } });
+        plan.actions.push(TimedAction { t: r.range(20_000, 30_000), kind: Action::BindFail { link, on: true } });
+        if r.chance(0.5) {
+            let off = r.range(200_000, cut.max(200_001));
+            plan.actions.push(TimedAction { t: off, kind: Action::BindFail { link, on: false } });
+            plan.actions.push(TimedAction { t: off, kind: Action::LinkLoss { link, on: false } });
+        }
+    }
+    plan.actions.sort_by_key(|a| a.t);
+}
+
 pub fn all() -> Vec<Box<dyn Check>> {
     vec![Box::new(LCheck {
         id: "C01",
@@ -714,5 +863,37 @@ pub fn all() -> Vec<Box<dyn Check>> {
             "an IPv6 uplink towards the IPv4 receiver cannot be created in this sandbox and may be absent after a reload",
         ],
         probes: &["c19.sighup", "c19.refused", "c19.accepted", "c19.applied", "c19.removed", "c19.added", "c19.survivor_mid_stream"],
+    }),
+    Box::new(LCheck {
+        id: "C07",
+        level: "fault_enumeration",
+        profile: c07_profile,
+        post: Some(c07_post),
+        monitors: || vec![Box::new(crate::mon::c07::C07::new())],
+        quick_runs: 1500,
+        thorough_runs: 100_000,
+        rule: "one run = one seeded plan on 2..3 uplinks with start-up probing; 60% of runs drive an adversarial receiver: a sequence of up to 14 handshake packets (REG_NGP, REG2 well-formed / short / over-long / on the wrong link / with a foreign id, REG3, REG_ERR, REG_NAK) on any link at instants straddling the 1 s retry, 2 s probe, 4 s REG2 and 5 s grace deadlines by +-1 ms, replies late, twice or never; the rest use the cooperative receiver with loss, delay, black holes and restarts. A wire-level protocol monitor (one REG1 outstanding, driver REG1 only while nothing is connected, id adoption only from a full-length REG2 on the pending uplink, exactly one broadcast round, ids carried, connected only on REG3, REG_ERR cancels, 4 s abandonment, bounded liveness in clean runs) is evaluated after every step, one uplink datagram per step. Non-trivial = at least one REG1 was sent; distinct = distinct event-log hashes among non-trivial runs",
+        assumptions: &[
+            "the immediate REG1 that answers a REG_NGP is judged by the one-outstanding rule only; the 'only while no uplink is registered' clause is about the housekeeping driver, as the statement says",
+            "reload (which renumbers uplinks under an index-based pending slot) is outside C07's quantifier and not part of these runs",
+        ],
+        probes: &["c07.reg1_sent", "c07.driver_reg1", "c07.immediate_reg1", "c07.reg2_accepted", "c07.reg2_short", "c07.reg2_wrong_link", "c07.reg2_late_or_unsolicited", "c07.reg_err_delivered", "c07.reg1_timed_out", "c07.broadcast_round", "c07.connected_rise", "c07.startup_probe", "c07.liveness_judged"],
+    }),
+    Box::new(LCheck {
+        id: "C08",
+        level: "fault_enumeration",
+        profile: c08_profile,
+        post: Some(c08_post),
+        monitors: || vec![Box::new(crate::mon::c08::C08::new())],
+        quick_runs: 400,
+        thorough_runs: 15_000,
+        rule: "one run = one seeded plan on 2..4 uplinks, both modes, every connection-timeout setting in its clamped range, with per-link fault/repair schedules (silent black hole in either direction, total loss, lost handshake replies, receiver restarts answered REG_NGP/REG_ERR, send errors, bind failures so that the exponential back-off grows) and a thin continuous stream; horizons of 15 s to 10 virtual minutes, faults confined to the first part so the liveness clock can run out. Monitors: tear-down cause (silence >= the timeout in force by the monitor's own stamps, or an injected send failure - never a routing penalty), retry spacing (>= 1 s before / >= 5 s after first establishment, never more than 120 s + one tick apart while down), bounded liveness (precondition evaluated from the plan and the receiver model at every tick), clean rejoin, survivors keep carrying the stream. Non-trivial = at least one tear-down, attempt or rejoin was judged; distinct = distinct event-log hashes among non-trivial runs",
+        assumptions: &[
+            "between a run-time timeout change and the next routing decision either the old or the new value may be in force",
+            "receiver link / group expiry is 10 s as in srtla_rec; the receiver accepts a REG2 iff it holds the group id, and a REG1 from an address it does not know",
+            "bounded liveness is judged only for links whose path has no random loss and no fault left on at the end of the plan",
+            "a REG_ERR delivered to a link is the peer's explicit rejection and is not judged as a sender-side tear-down",
+        ],
+        probes: &["c08.teardown_of_connected_link", "c08.cause_silence", "c08.cause_send_failure", "c08.attempt", "c08.rejoin", "c08.stream_with_survivor", "c08.stream_while_a_link_is_down", "c08.liveness_clock_running", "c08.backoff_grew"],
     })]
 }
